@@ -1,6 +1,8 @@
 """C20 -- switching the session keyspace is applied everywhere or reported."""
 import itertools
 
+import os
+
 from hypothesis import strategies as st
 
 from checks import _simclu as S
@@ -11,6 +13,7 @@ PID = "C20"
 TITLE = "Switching the session keyspace is applied everywhere or reported"
 LEVEL = "exploration"
 ENGINE = "sim"
+SERIAL = os.environ.get("VERIF_TIER") == "quick"   # heavily loaded machine: a forked pool is slower than one process
 TECHNIQUE = ("bounded exhaustive enumeration plus model-based generation (Hypothesis) of per-pool outcomes and delivery "
              "orders over the real Cluster/Session/pools/connections on a deterministic simulated network; the fake "
              "servers' own record of what they answered is the ground truth")
